@@ -5,9 +5,17 @@
 import DateutilVerif.Proofs.RenderSchema
 import DateutilVerif.Proofs.RenderMon
 import DateutilVerif.Proofs.RenderCompact
+import DateutilVerif.Proofs.RenderClock
+import DateutilVerif.Spec.ParserTemplatesGen
 
 namespace PM
 open Py PT
+
+theorem digs_dtok (ks : List Nat) : digs ks = dtok ks := rfl
+theorem dateDigits8_eq (y m d : Nat) : dateDigits8 y m d = date8 y m d := rfl
+theorem weekday_lt7 (t : DT) : t.weekday.toNat < 7 := by
+  have := Cal.weekdayOfOrd_range t.ordinal
+  unfold DT.weekday; omega
 
 theorem valid_mix (t : DT) (ht : t.Valid) (hh mm ss us : Int) (h1 : 0 ≤ hh) (h2 : hh ≤ 23) (h3 : 0 ≤ mm) (h4 : mm ≤ 59)
     (h5 : 0 ≤ ss) (h6 : ss ≤ 59) (h7 : 0 ≤ us) (h8 : us ≤ 999999) : (DT.mk t.y t.m t.d hh mm ss us).valid = true := by
@@ -85,6 +93,39 @@ theorem wordEnds_off (off : Off) (h : off.Spaced) : WordEnds cls off.render := b
   all_goals (try (simp only [Off.Spaced] at h; subst h))
   all_goals exact wordEnds_ascii cls _ _ (by decide)
 end
+
+/-! ### 12-hour clock words -/
+section
+variable (df yf : Bool) (year century : Int)
+local notation "I" => Info.default df yf year century
+@[simp] theorem wd_am : (I).weekdayOf ['a', 'm'] = none := by tbl
+@[simp] theorem mo_am : (I).monthOf ['a', 'm'] = none := by tbl
+@[simp] theorem ap_am : (I).ampmOf ['a', 'm'] = some 0 := by tbl
+@[simp] theorem wd_pm : (I).weekdayOf ['p', 'm'] = none := by tbl
+@[simp] theorem mo_pm : (I).monthOf ['p', 'm'] = none := by tbl
+@[simp] theorem ap_pm : (I).ampmOf ['p', 'm'] = some 1 := by tbl
+@[simp] theorem wd_AM : (I).weekdayOf ['A', 'M'] = none := by tbl
+@[simp] theorem mo_AM : (I).monthOf ['A', 'M'] = none := by tbl
+@[simp] theorem ap_AM : (I).ampmOf ['A', 'M'] = some 0 := by tbl
+@[simp] theorem wd_PM : (I).weekdayOf ['P', 'M'] = none := by tbl
+@[simp] theorem mo_PM : (I).monthOf ['P', 'M'] = none := by tbl
+@[simp] theorem ap_PM : (I).ampmOf ['P', 'M'] = some 1 := by tbl
+end
+section
+variable (cls : Char → CClass) [AsciiOK cls]
+@[simp] theorem fl_am : floatOk cls ['a', 'm'] = false := by rw [floatOk_ascii cls _ (by decide)]; decide
+@[simp] theorem fl_pm : floatOk cls ['p', 'm'] = false := by rw [floatOk_ascii cls _ (by decide)]; decide
+@[simp] theorem fl_AM : floatOk cls ['A', 'M'] = false := by rw [floatOk_ascii cls _ (by decide)]; decide
+@[simp] theorem fl_PM : floatOk cls ['P', 'M'] = false := by rw [floatOk_ascii cls _ (by decide)]; decide
+end
+theorem apLow_alpha (h : Nat) : isAlphaWord (apLow h) = true := by unfold apLow; split <;> decide
+theorem apWord_alpha (h : Nat) : isAlphaWord (apWord h) = true := by unfold apWord; split <;> decide
+
+theorem adj_am (h : Nat) (hlt : h < 12) : (Gen.adjustAmpm ((h12 h : Nat) : Int) 0).toNat = h := by
+  have := adjustAmpm_h12 h (by omega); simpa [adjustAmpm, hlt] using this
+theorem adj_pm (h : Nat) (hge : ¬ h < 12) (h24 : h < 24) : (Gen.adjustAmpm ((h12 h : Nat) : Int) 1).toNat = h := by
+  have := adjustAmpm_h12 h h24; simpa [adjustAmpm, hge] using this
+theorem h12_bounds (h : Nat) : 1 ≤ h12 h ∧ h12 h ≤ 12 := by unfold h12; split <;> omega
 
 set_option hygiene false in
 /-- from `ht : t.Valid`, `hdv : dflt.Valid` -/
